@@ -60,6 +60,7 @@ type Sub struct {
 	Transitions atomic.Int64
 	Planned     int64 // size of the space by formula (0 = unknown)
 	Exhaustive  bool
+	Companion   bool // a separately reported non-exhaustive companion pass: kept out of the aggregate coverage figures
 	Bound       string
 	Notes       []string
 	Extra       map[string]any
@@ -341,6 +342,12 @@ func (r *Run) Finish() int {
 	var samples []any
 	var subs []map[string]any
 	for _, s := range r.subs {
+		if s.Companion {
+			m := map[string]any{"name": s.Name, "companion_pass_not_part_of_the_exhaustive_claim": true, "evaluations": s.Evals.Load(),
+				"exhaustive": false, "bound": s.Bound, "wall_s": s.wall, "rule": s.Rule, "notes": s.Notes}
+			subs = append(subs, m)
+			continue
+		}
 		evals += s.Evals.Load()
 		st, tr := s.States.Load(), s.Transitions.Load()
 		if st == 0 {
